@@ -212,7 +212,8 @@ def run_history(ctx, text, ops, info, reqs_out):
         if len(ctx.failures) > nfail:
             break
         op = r["op"]
-        inp = {"doc": text, "ops": [list(map(str, o)) for o in ops], "at": list(map(str, op)), "before": r["before"]}
+        inp = {"doc": text, "ops": [list(map(str, o)) for o in ops], "at": list(map(str, op)), "before": r["before"],
+               "stream": info.get("stream")}
         tb = r["tree_before"]
         ta = ep.safe_tree(r["after"]) if not r["after"].startswith("<rebuild raised") else None
         if r["after"].startswith("<rebuild raised"):
@@ -284,6 +285,8 @@ def run_history(ctx, text, ops, info, reqs_out):
             from .c05 import inherited_at
 
             via = "inherit" if inherited_at(tb, names) else ("attrpath-family" if in_family else "other")
+            if via == "other" and names and names[0] in {p[0] for p in ep.attrpath_parents_of(text) if len(p) == 1}:
+                via = "attrpath-zombie"  # the family was deleted from `values` earlier in this history and is still in attrpath_order
             ctx.fail({"clause": "text-unreadable", "via": via, **key}, {**inp, "after": r["after"]},
                      f"after {op!r} the text has a duplicate definition or no target: {r['after']!r}")
             continue
@@ -380,7 +383,8 @@ def run(ctx: fw.Ctx):
         if text not in seen_t and len(seen_t) < (400 if ctx.quick else 4000):
             seen_t.add(text)
             for ops in TARGETED:
-                jobs.append((text, info, list(ops)))
+                # (documents of the random generator carry `multiline` in their info: their cases are not enumerable)
+                jobs.append((text, dict(info, stream="fixed") if "multiline" not in info else info, list(ops)))
     for text, info, ops in jobs:
         recs = run_history(ctx, text, ops, info, reqs)
         if recs is None:
